@@ -388,3 +388,113 @@ func c15AllDefs(c *Ctx, r *Report) {
 	}
 	r.floor("C15.ALLDEFS", "definition table loops in the whole-schema printer", n, 2)
 }
+
+// c15Format: text of the schema (descriptions, names, defaults) is data, never a format: in the functions
+// reachable from the printers (Write / SDL methods, writeDesc and helpers) every fmt formatting call has a
+// constant format string.
+func c15Format(c *Ctx, r *Report) {
+	r.rule("C15.FORMAT", "every fmt.*printf / Errorf call reachable from the SDL printers has a constant format string")
+	var roots []*ssa.Function
+	for _, T := range schemaStructs {
+		for _, m := range []string{"Write", "SDL"} {
+			if fn := c.fn("(*" + T + ")." + m); fn != nil {
+				roots = append(roots, fn)
+			}
+		}
+	}
+	if fn := c.fn("(*Root).SDL"); fn != nil {
+		roots = append(roots, fn)
+	}
+	if len(roots) == 0 {
+		r.undecided("C15.FORMAT", "anchors: printers", 0, "not found")
+		return
+	}
+	reach := c.reachable(roots...)
+	var fns []*ssa.Function
+	for f := range reach {
+		if c.inPkg(f) {
+			fns = append(fns, f)
+		}
+	}
+	sort.Slice(fns, func(i, j int) bool { return fnName(fns[i]) < fnName(fns[j]) })
+	n := 0
+	fmtIdx := map[string]int{"Fprintf": 1, "Sprintf": 0, "Printf": 0, "Errorf": 0, "Fscanf": 1, "Sscanf": 1, "Appendf": 1}
+	for _, fn := range fns {
+		k := 0
+		for _, ci := range callsIn(fn) {
+			f := calleeObj(ci)
+			if f == nil || f.Pkg() == nil || f.Pkg().Path() != "fmt" {
+				continue
+			}
+			idx, isF := fmtIdx[f.Name()]
+			if !isF || idx >= len(ci.Common().Args) {
+				continue
+			}
+			n++
+			k++
+			_, isC := ci.Common().Args[idx].(*ssa.Const)
+			if bo, ok := ci.Common().Args[idx].(*ssa.BinOp); ok && !isC {
+				// constant prefix + constant (folded) is a Const already; "%w: "+format with a parameter is a helper's own format
+				_ = bo
+			}
+			r.check("C15.FORMAT", fmt.Sprintf("%s: format #%d of fmt.%s is a constant", fnName(fn), k, f.Name()), ci.Pos(), isC,
+				"the format string is computed: text taken from the schema is interpreted as formatting verbs - a description containing % is garbled, one ending in % swallows its closing quote and the printed SDL no longer parses")
+		}
+	}
+	r.check("C15.FORMAT", "printer family examined", 0, true, fmt.Sprintf("%d fmt formatting calls in %d functions reachable from the printers", n, len(fns)))
+}
+
+// c15Fresh: the whole-schema printer renders the tables as they are at the time of the call: the string it
+// returns is built during the call, not loaded from the Root. A remembered rendering is stale as soon as an
+// existing definition is extended, which changes no table length.
+func c15Fresh(c *Ctx, r *Report) {
+	r.rule("C15.RENDER", "(*Root).SDL returns text built during the call: no returned value is loaded from state of the Root")
+	fn := c.fn("(*Root).SDL")
+	if fn == nil || len(fn.Params) == 0 {
+		r.undecided("C15.RENDER", "anchor (*Root).SDL", 0, "not found")
+		return
+	}
+	recv := fn.Params[0]
+	n := 0
+	for _, rt := range returnsOf(fn) {
+		if len(rt.Results) == 0 {
+			continue
+		}
+		n++
+		bad := ""
+		seen := map[ssa.Value]bool{}
+		var walk func(v ssa.Value, d int)
+		walk = func(v ssa.Value, d int) {
+			if v == nil || seen[v] || d > 8 {
+				return
+			}
+			seen[v] = true
+			switch t := v.(type) {
+			case *ssa.Phi:
+				for _, e := range t.Edges {
+					walk(e, d+1)
+				}
+			case *ssa.UnOp:
+				if rootValueOfLoad(t.X) == ssa.Value(recv) {
+					bad = shortPath(vpath(t))
+					return
+				}
+				if al, ok := t.X.(*ssa.Alloc); ok {
+					for _, st := range cellStores(al) {
+						walk(st.Val, d+1)
+					}
+					return
+				}
+				walk(t.X, d+1)
+			case *ssa.FieldAddr:
+				walk(t.X, d+1)
+			case *ssa.Field:
+				walk(t.X, d+1)
+			}
+		}
+		walk(resolveCell(rt.Results[0]), 0)
+		r.check("C15.RENDER", fmt.Sprintf("%s: return #%d hands out text rendered by this call", fnName(fn), n), rt.Pos(), bad == "",
+			"the returned text is "+bad+", remembered from an earlier call: an `extend` (or AddField / AddValue) changes an existing definition without changing what the cache is keyed on, and the printed schema lacks what the root has accepted")
+	}
+	r.floor("C15.RENDER", "returns of the whole-schema printer", n, 1)
+}
